@@ -35,7 +35,7 @@ for d in sorted(glob.glob("/verif/seeded/*/")):
         by = "; ".join(re.sub(r"INCONCLUSIVE property=\S+ harness=", "", l)[:70] for l in c.get("inconclusive_lines", [])[:2])
     rows.append((sid, h["head"], "%s, %ss" % (outcome, c.get("wall_s")), title, by))
 
-print("| change | evaluated on | outcome of `./check <id>` (quick) | what it changes | reported by / reason |")
+print("| change | evaluated on | outcome of the registered quick check(s) | what it changes | reported by / reason |")
 print("|---|---|---|---|---|")
 for r in rows:
     print("| %s | %s | %s | %s | %s |" % r)
